@@ -263,7 +263,7 @@ fn chain_case<T: TElem>(ctx: &Ctx, rep: &mut Report, case: u64, g: &mut Sm64) {
 }
 
 pub fn run(ctx: &Ctx, rep: &mut Report) {
-    for c in ctx.case_ids("trackers", 1000, 100_000) {
+    for c in ctx.case_ids("trackers", 1000, 1_000_000) {
         let mut g = ctx.rng("trackers", c);
         match c % 4 {
             0 => chain_case::<f32>(ctx, rep, c, &mut g),
